@@ -1751,40 +1751,45 @@ class PseudoNetCDFFile(PseudoNetCDFSelfReg, object):
                     refyear = refdate.year
                     # Get a year for relative day calculations
                     yearlike = _calendaryearlike[calendar]
-                    # In that year, how many seconds and days are there
-                    yearseconds = (date(yearlike + 1, 1, 1) -
-                                   date(yearlike, 1, 1)).total_seconds()
-                    yeardays = yearseconds / 3600 / 24
+                    # In that year, how many days are there
+                    yeardays = (date(yearlike + 1, 1, 1) -
+                                date(yearlike, 1, 1)).days
 
                     # Get a new reference date in yearlike
                     crefdate = datetime(yearlike, 1, 1, tzinfo=utc)
-                    if refdate.month != 1 or refdate.day != 1:
-                        # Get start date in yearlike
-                        refcdate = datetime(
-                            yearlike, refdate.month, refdate.day, tzinfo=utc)
-                        # Calculate delta in years
-                        addyears = (
-                            crefdate - refcdate).total_seconds() / yearseconds
+                    # Offset of the reference from Jan 1 00:00 UTC of its
+                    # year: day of the fixed-length year, time of day and
+                    # UTC offset
+                    refincr = timedelta(
+                        days=(date(yearlike, refdate.month, refdate.day) -
+                              date(yearlike, 1, 1)).days,
+                        hours=refdate.hour, minutes=refdate.minute,
+                        seconds=refdate.second,
+                        microseconds=refdate.microsecond)
+                    if refdate.utcoffset() is not None:
+                        refincr = refincr - refdate.utcoffset()
+                    # Increments since Jan 1 of the reference year; whole
+                    # days count fixed-length years, the rest is time of day
+                    if unit == 'years':
+                        incrs = [refincr + timedelta(days=float(i) * yeardays)
+                                 for i in time[:]]
                     else:
-                        addyears = 0
-                    # Convert time to fractional years, including change in
-                    # reference
-                    incrdenom = {'years': 1, 'days': yeardays,
-                                 'hours': yeardays * 24,
-                                 'minutes': yeardays * 24 * 60,
-                                 'seconds': yeardays * 24 * 60}[unit]
-                    fracyearincrs = time[:] / incrdenom + addyears
-                    # Split into years and days
-                    yearincrs = np.array(fracyearincrs // 1).astype('i')
-                    dayincrs = (fracyearincrs % 1) * yeardays
+                        incrs = [refincr + timedelta(**{unit: float(i)})
+                                 for i in time[:]]
+                    yearincrs = [incr.days // yeardays for incr in incrs]
+                    dayincrs = [timedelta(days=incr.days % yeardays,
+                                          seconds=incr.seconds,
+                                          microseconds=incr.microseconds)
+                                for incr in incrs]
                     # Add days to the calendar year reference
-                    cdays = [crefdate + timedelta(days=dayinc)
-                             for dayinc in dayincrs]
+                    cdays = [crefdate + dayinc for dayinc in dayincrs]
                     try:
                         # Combine calendar specific month and day with new year
                         out = np.array([
                             datetime(refyear + yearinc, cday.month,
-                                     cday.day, tzinfo=utc)
+                                     cday.day, cday.hour, cday.minute,
+                                     cday.second, cday.microsecond,
+                                     tzinfo=utc)
                             for yearinc, cday in zip(yearincrs, cdays)])
                     except Exception:
                         warn(('Years calculated from %d day year, but ' +
@@ -1793,7 +1798,7 @@ class PseudoNetCDFFile(PseudoNetCDFSelfReg, object):
                               'leap year') % yeardays)
                         out = np.array([
                             datetime(refyear + yearinc, 1, 1, tzinfo=utc) +
-                            timedelta(days=float(dayinc))
+                            dayinc
                             for yearinc, dayinc in zip(yearincrs, dayincrs)])
 
                 else:
